@@ -16,6 +16,7 @@
 import Vita.C19.LemmasStr
 import Vita.C19.LemmasStrip
 import Vita.C19.LemmasNum
+import Vita.C19.LemmasGenome
 namespace Vita.C19
 
 set_option maxRecDepth 100000 in
@@ -78,14 +79,18 @@ theorem scan_render (fns : List FnSym) (tms : List TmSym) (f : Fmt) (hr : allReg
     lexS f (simT fns tms f t) = toksT fns tms f t :=
   (lex_tree fns tms f hr hg t h.1 h.2.2).1
 
-/-- `export_denotes`: the text printed for a program scans to the token list of a
-    precedence-consistent tree `A` which is the program's expression tree, or that tree without
-    its outer pair of parentheses. -/
-theorem export_denotes (fns : List FnSym) (tms : List TmSym) (f : Fmt)
+/-- `strip_only_matching` (the outer-parentheses rule of language(): `length > 2 && front == '('
+    && back == ')'`): the text printed for a program scans to the token list of a
+    precedence-consistent tree `A`; either nothing was stripped and `A` is the program's expression
+    tree, or the program's expression tree is `( A )` – the two characters removed are the two
+    ends of ONE parenthesised expression, never the `(` of a first and the `)` of a last operand
+    (`(a)+(b)` is not turned into `a)+(b`). -/
+theorem strip_only_matching (fns : List FnSym) (tms : List TmSym) (f : Fmt)
     (hs : allSafe fns = true) (hr : allRegular fns = true) (hg : allNoGlue fns tms = true)
     (t : Tree) (h : Admissible fns tms f t) :
     ∃ A : Ast, lexS f (language fns tms f t) = flat A ∧ ok f hl A = true ∧
-      (A = astT fns tms f t ∨ astT fns tms f t = .paren A) := by
+      ((A = astT fns tms f t ∧ language fns tms f t = langT fns tms f t) ∨
+       astT fns tms f t = .paren A) := by
   have ⟨hflat, hok, _⟩ := render_atom fns tms f hs t h
   have hseq := seq_replace_ok fns tms f hr t h
   have ⟨hlex, hrend⟩ := lex_tree fns tms f hr hg t h.1 h.2.2
@@ -119,7 +124,18 @@ theorem export_denotes (fns : List FnSym) (tms : List TmSym) (f : Fmt)
     | _ => rw [hA] at hpar; simp [isParen] at hpar
   · have hstrip : stripOuter s = s := by simp [stripOuter, hc]
     rw [hstrip]
-    exact ⟨astT fns tms f t, by rw [hlex, hflat], hok, Or.inl rfl⟩
+    exact ⟨astT fns tms f t, by rw [hlex, hflat], hok, Or.inl ⟨rfl, rfl⟩⟩
+
+/-- `export_denotes`: the text printed for a program scans to the token list of a
+    precedence-consistent tree `A` which is the program's expression tree, or that tree without
+    its outer pair of parentheses. -/
+theorem export_denotes (fns : List FnSym) (tms : List TmSym) (f : Fmt)
+    (hs : allSafe fns = true) (hr : allRegular fns = true) (hg : allNoGlue fns tms = true)
+    (t : Tree) (h : Admissible fns tms f t) :
+    ∃ A : Ast, lexS f (language fns tms f t) = flat A ∧ ok f hl A = true ∧
+      (A = astT fns tms f t ∨ astT fns tms f t = .paren A) := by
+  obtain ⟨A, h1, h2, h3⟩ := strip_only_matching fns tms f hs hr hg t h
+  exact ⟨A, h1, h2, h3.elim (fun x => Or.inl x.1) Or.inr⟩
 
 /-- the shipped table meets the obligations: for every program over the shipped primitives and
     each of the four formats, the exported text denotes the program's expression. -/
@@ -158,6 +174,62 @@ theorem numeric_terminal_admissible (fns : List FnSym) (tms : List TmSym) (f : F
       simp [partStr]
     rw [this]; exact fmtInt0_good f _ hfl _
 
+/-! ### the genome level: the exported text is a function of the unfolded program only -/
+
+/-- `export_of_unfolded`: what `out::X_language << individual` prints – the recursive lambda
+    reading its arguments through `mep[{args[i], arg_category(i)}]`, i.e. by LOCUS (row and
+    category) – is the text of the tree unfolded from the best locus.  For every genome, every
+    best locus, every format. -/
+theorem export_of_unfolded (fns : List FnSym) (tms : List TmSym) (f : Fmt) (g : Genome) (n : Nat)
+    (best : Locus) :
+    exportG fns tms f g n best = language fns tms f (unfoldG fns g n best) := by
+  simp only [exportG, language, langG_eq_langT]
+
+/-- `export_layout_independent`: equal trees ⇒ equal text.  Two individuals (different numbers
+    of rows and categories, genes placed in different rows, several active genes in one row or one
+    per row, a sub-expression shared as a DAG node or repeated) whose unfolded programs are equal
+    are printed identically. -/
+theorem export_layout_independent (fns : List FnSym) (tms : List TmSym) (f : Fmt) (g1 g2 : Genome)
+    (n1 n2 : Nat) (b1 b2 : Locus) (h : unfoldG fns g1 n1 b1 = unfoldG fns g2 n2 b2) :
+    exportG fns tms f g1 n1 b1 = exportG fns tms f g2 n2 b2 := by
+  simp only [export_of_unfolded, h]
+
+/-- `export_ignores_inactive`: the text depends on the ACTIVE genes only: two genomes that hold
+    the same gene at every locus reachable from the best locus are printed identically, whatever
+    the other loci hold (introns, the other categories of an active row, ...). -/
+theorem export_ignores_inactive (fns : List FnSym) (tms : List TmSym) (f : Fmt) (g1 g2 : Genome)
+    (n : Nat) (best : Locus) (h : ∀ m, Active fns g1 best m → g1 m = g2 m) :
+    exportG fns tms f g1 n best = exportG fns tms f g2 n best :=
+  export_layout_independent fns tms f g1 g2 n n best best (unfoldG_congr fns g1 g2 n best h)
+
+/-- `unfold_fuel_irrelevant`: on a well-formed genome (`i_mep::is_valid`: the arguments of a gene
+    in row i are in rows i+1 .. n-1) the recursion of language() needs no more than `n` levels:
+    any larger bound unfolds the same program and prints the same text. -/
+theorem unfold_fuel_irrelevant (fns : List FnSym) (tms : List TmSym) (f : Fmt) (g : Genome) (n : Nat)
+    (hw : WfG fns g n) (best : Locus) (hb : best.row < n) (fuel : Nat) (hf : n ≤ fuel) :
+    unfoldG fns g fuel best = unfoldG fns g n best ∧
+    exportG fns tms f g fuel best = exportG fns tms f g n best := by
+  have h := unfoldG_stable fns g n hw fuel n best hb (by omega) (by omega)
+  exact ⟨h, export_layout_independent fns tms f g g fuel n best best h⟩
+
+/-- `export_genome_denotes`: `export_denotes` at the genome level: the text printed for an
+    individual scans to the token list of a precedence-consistent tree which is the expression
+    tree of the unfolded program, or that tree without its one outer pair of parentheses. -/
+theorem export_genome_denotes (fns : List FnSym) (tms : List TmSym) (f : Fmt)
+    (hs : allSafe fns = true) (hr : allRegular fns = true) (hg : allNoGlue fns tms = true)
+    (g : Genome) (n : Nat) (best : Locus) (h : Admissible fns tms f (unfoldG fns g n best)) :
+    ∃ A : Ast, lexS f (exportG fns tms f g n best) = flat A ∧ ok f hl A = true ∧
+      (A = astT fns tms f (unfoldG fns g n best) ∨ astT fns tms f (unfoldG fns g n best) = .paren A) := by
+  rw [export_of_unfolded]
+  exact export_denotes fns tms f hs hr hg _ h
+
+/-- `team_export_lines`: a team is printed as its members' texts, each followed by a newline;
+    when no member's text contains a newline the lines of the team's text are exactly the
+    members' texts (so each line denotes its member's expression by `export_genome_denotes`). -/
+theorem team_export_lines (ms : List (List Ch)) (h : ∀ m ∈ ms, 10 ∉ m) :
+    splitLines (teamG ms) = ms :=
+  splitLines_teamG ms h
+
 /-! ### the hypotheses are satisfiable: a concrete non-trivial program -/
 
 /-- index of the function named `name` in the extracted table -/
@@ -189,5 +261,73 @@ example : ∀ f ∈ Fmt.all,
     parse f (lexS f (language Gen.functions Gen.terminals f sampleTree)) =
       some (stripAst (astT Gen.functions Gen.terminals f sampleTree)) := by
   decide
+
+/-! ### genome-level examples -/
+
+/-- index of the first terminal class whose C display is `p` -/
+def tmIdxQ : Nat := tmIdx [.quote]
+
+/-- FADD(FLENGTH("hello"), 3.0), categories 0 = reals, 1 = strings, packed: `3.0` at [2,0] and
+    `"hello"` at [2,1] are two ACTIVE genes of the same row; [0,1] and [1,1] are inactive -/
+def demoPacked : List (List Gene) :=
+  [[.fn (fnIdx [70, 65, 68, 68]) [0, 0] [1, 2], .tm tmIdxQ [120] 0],
+   [.fn (fnIdx [70, 76, 69, 78, 71, 84, 72]) [1] [2], .tm tmIdxQ [121] 0],
+   [.tm (tmIdx [.toStrD]) [] 0x4008000000000000, .tm tmIdxQ [104, 101, 108, 108, 111] 0]]
+
+/-- the same program, one active gene per row, other inactive genes -/
+def demoChain : List (List Gene) :=
+  [[.fn (fnIdx [70, 65, 68, 68]) [0, 0] [1, 3], .tm tmIdxQ [] 0],
+   [.fn (fnIdx [70, 76, 69, 78, 71, 84, 72]) [1] [2], .tm tmIdxQ [122] 0],
+   [.tm (tmIdx [.toStrD]) [] 0x4000000000000000, .tm tmIdxQ [104, 101, 108, 108, 111] 0],
+   [.tm (tmIdx [.toStrD]) [] 0x4008000000000000, .tm tmIdxQ [97] 0],
+   [.tm (tmIdx [.toStrD]) [] 0, .tm tmIdxQ [98] 0]]
+
+example : wfRows Gen.functions demoPacked = true ∧ wfRows Gen.functions demoChain = true := by decide
+
+/-- both same-row genes of `demoPacked` are active -/
+example : Active Gen.functions (Genome.ofRows demoPacked) ⟨0, 0⟩ ⟨2, 0⟩ ∧
+    Active Gen.functions (Genome.ofRows demoPacked) ⟨0, 0⟩ ⟨2, 1⟩ := by
+  have h0 : Genome.ofRows demoPacked ⟨0, 0⟩ = .fn (fnIdx [70, 65, 68, 68]) [0, 0] [1, 2] := rfl
+  have h1 : Genome.ofRows demoPacked ⟨1, 0⟩ = .fn (fnIdx [70, 76, 69, 78, 71, 84, 72]) [1] [2] := rfl
+  obtain ⟨sa, hsa, haa⟩ : ∃ sym, Gen.functions[fnIdx [70, 65, 68, 68]]? = some sym ∧ sym.arity = 2 := by
+    refine ⟨_, rfl, ?_⟩; decide
+  obtain ⟨sl, hsl, hal⟩ : ∃ sym, Gen.functions[fnIdx [70, 76, 69, 78, 71, 84, 72]]? = some sym ∧ sym.arity = 1 := by
+    refine ⟨_, rfl, ?_⟩; decide
+  have a1 : Active Gen.functions (Genome.ofRows demoPacked) ⟨0, 0⟩ ⟨1, 0⟩ :=
+    Active.arg (i := 0) (Active.root _) h0 hsa (by omega)
+  exact ⟨Active.arg (i := 1) (Active.root _) h0 hsa (by omega),
+         Active.arg (i := 0) a1 h1 hsl (by omega)⟩
+
+set_option maxRecDepth 100000 in
+/-- the two layouts unfold the same program (hypothesis of `export_layout_independent`), which
+    is within the hypotheses of `export_genome_denotes` in all four formats -/
+example : unfoldG Gen.functions (Genome.ofRows demoPacked) 3 ⟨0, 0⟩ =
+    unfoldG Gen.functions (Genome.ofRows demoChain) 5 ⟨0, 0⟩ := by rfl
+
+set_option maxRecDepth 100000 in
+example : ∀ f ∈ Fmt.all,
+    wfT Gen.functions (unfoldG Gen.functions (Genome.ofRows demoPacked) 3 ⟨0, 0⟩) = true ∧
+    termsT (termOk f (firstList Gen.functions Gen.terminals f)) Gen.terminals f
+      (unfoldG Gen.functions (Genome.ofRows demoPacked) 3 ⟨0, 0⟩) = true ∧
+    termsT (rendOk f (firstList Gen.functions Gen.terminals f)) Gen.terminals f
+      (unfoldG Gen.functions (Genome.ofRows demoPacked) 3 ⟨0, 0⟩) = true := by
+  decide
+
+set_option maxRecDepth 100000 in
+/-- the two genes of row 2 print different texts: a rendering cached per ROW cannot be right -/
+example : langG Gen.functions Gen.terminals .c (Genome.ofRows demoPacked) 1 ⟨2, 0⟩ ≠
+    langG Gen.functions Gen.terminals .c (Genome.ofRows demoPacked) 1 ⟨2, 1⟩ := by decide
+
+/-- the stripping rule by itself is NOT sound: `(a)+(b)` would become `a)+(b`.  It is sound for
+    vita's programs because of `Safe` (`stripOk`): a template that can start with `(` and end with
+    `)` must be one parenthesised expression – `%%1%%+%%2%%` is rejected. -/
+example : stripOuter [40, 97, 41, 43, 40, 98, 41] = [97, 41, 43, 40, 98] := by decide
+
+set_option maxRecDepth 100000 in
+example : safeTpl .c { key := "x", name := [], arity := 2,
+                       tpl := [[37, 37, 49, 37, 37, 43, 37, 37, 50, 37, 37]] } = false := by decide
+
+/-- a team of two members, no newline in a member's text -/
+example : splitLines (teamG [[97, 43, 98], [99]]) = [[97, 43, 98], [99]] := by decide
 
 end Vita.C19
